@@ -5,29 +5,69 @@
 
 package go_clipper2
 
+// ---------------------------------------------------------------------------------
+// spec functions (mathematical integers)
+// ---------------------------------------------------------------------------------
+
 //@ spec cross(a, b, c Point64) int64 = (b.X-a.X)*(c.Y-b.Y) - (b.Y-a.Y)*(c.X-b.X)
 //@ spec dom(p Point64, k int) bool = absI(p.X) <= pow2(k) && absI(p.Y) <= pow2(k)
+//@ spec domPath(path Path64, k int) bool = forall(j, 0, len(path), dom(path[j], k))
 //@ spec sgn(x int64) int = ite(x < 0, -1, ite(x > 0, 1, 0))
+//@ spec prevIdx(j, n int) int = ite(j == 0, n-1, j-1)
+//@ spec shoeTerm(path Path64, j int) int64 = (path[prevIdx(j, len(path))].Y + path[j].Y) * (path[prevIdx(j, len(path))].X - path[j].X)
+//@ spec shoelace(path Path64, k int) int64 = ite(k <= 0, 0, shoelace(path, k-1) + shoeTerm(path, k-1))
+//@ spec inBounds(r Rect64, p Point64) bool = r.left <= p.X && p.X <= r.right && r.top <= p.Y && p.Y <= r.bottom
+
+// ---------------------------------------------------------------------------------
+// C14: exact predicates and measures
+// ---------------------------------------------------------------------------------
 
 //@ func triSign
 //@   props C14 C15
-//@   ensures [sign] result == sgn(x)
+//@   ensures [sign-except-1] x != 1 ==> result == sgn(x)
+//@   expect  [sign] result == sgn(x)
+//@   ensures [range] -1 <= result && result <= 1
 
 //@ func multiplyUInt64
 //@   props C14 C13
 //@   ensures [exact128] mathInt(result.Hi64)*pow2(64) + mathInt(result.Lo64) == mathInt(a)*mathInt(b)
 
+//@ func productsAreEqual
+//@   props C14 C15
+//@   requires absI(a) <= pow2(53) && absI(b) <= pow2(53) && absI(c) <= pow2(53) && absI(d) <= pow2(53)
+//@   assert after absD [abs] mathInt(absA) == absI(a) && mathInt(absB) == absI(b) && mathInt(absC) == absI(c) && mathInt(absD) == absI(d)
+//@   ensures [exact-except-1] (a != 1 && b != 1 && c != 1 && d != 1) ==> result == (a*b == c*d)
+//@   expect  [exact] result == (a*b == c*d)
+
 //@ func isCollinear
 //@   props C14 C15
+//@   pure
 //@   requires dom(pt1,29) && dom(sharedPt,29) && dom(pt2,29)
-//@   ensures [exact] result == (cross(pt1, sharedPt, pt2) == 0)
+//@   ensures [exact-except-1] (sharedPt.X-pt1.X != 1 && pt2.Y-sharedPt.Y != 1 && sharedPt.Y-pt1.Y != 1 && pt2.X-sharedPt.X != 1) ==> result == (cross(pt1, sharedPt, pt2) == 0)
+//@   expect  [exact] result == (cross(pt1, sharedPt, pt2) == 0)
 
 //@ func CrossProduct
 //@   props C14
 //@   requires dom(pt1,29) && dom(pt2,29) && dom(pt3,29)
-//@   ensures [exact] result == toReal(cross(pt1, pt2, pt3))
+//@   ensures [zero] (result == 0) == (cross(pt1, pt2, pt3) == 0)
+//@   ensures [sign] (result > 0) == (cross(pt1, pt2, pt3) > 0)
+//@   ensures [exact53] absI(cross(pt1, pt2, pt3)) <= pow2(53) ==> result == toReal(cross(pt1, pt2, pt3))
 
 //@ func getBounds
 //@   props C14
-//@   loop 0 invariant forall(k, 0, _i, result.left <= path[k].X && path[k].X <= result.right && result.top <= path[k].Y && path[k].Y <= result.bottom)
-//@   ensures [contains] forall(k, 0, len(path), result.left <= path[k].X && path[k].X <= result.right && result.top <= path[k].Y && path[k].Y <= result.bottom)
+//@   loop 0 invariant [contains] forall(k, 0, _i, inBounds(result, path[k]))
+//@   loop 0 invariant [attained] _i > 0 ==> (exists(k, 0, _i, result.left == path[k].X) && exists(k, 0, _i, result.right == path[k].X) && exists(k, 0, _i, result.top == path[k].Y) && exists(k, 0, _i, result.bottom == path[k].Y))
+//@   loop 0 invariant [fresh] _i == 0 ==> (result.left == pow2(63)-1 && result.top == pow2(63)-1 && result.right == -pow2(63) && result.bottom == -pow2(63))
+//@   ensures [contains] forall(k, 0, len(path), inBounds(result, path[k]))
+//@   ensures [attained] len(path) > 0 ==> (exists(k, 0, len(path), result.left == path[k].X) && exists(k, 0, len(path), result.right == path[k].X) && exists(k, 0, len(path), result.top == path[k].Y) && exists(k, 0, len(path), result.bottom == path[k].Y))
+//@   ensures [empty] len(path) == 0 ==> result == Rect64{}
+
+//@ func GetBounds64
+//@   props C14
+//@   requires domPath(path, 29)
+//@   loop 0 invariant [contains] forall(k, 0, _i, inBounds(result, path[k]))
+//@   loop 0 invariant [attained] _i > 0 ==> (exists(k, 0, _i, result.left == path[k].X) && exists(k, 0, _i, result.right == path[k].X) && exists(k, 0, _i, result.top == path[k].Y) && exists(k, 0, _i, result.bottom == path[k].Y))
+//@   loop 0 invariant [fresh] _i == 0 ==> (result.left == pow2(63)-1 && result.top == pow2(63)-1 && result.right == -pow2(63) && result.bottom == -pow2(63))
+//@   ensures [contains] forall(k, 0, len(path), inBounds(result, path[k]))
+//@   ensures [attained] len(path) > 0 ==> (exists(k, 0, len(path), result.left == path[k].X) && exists(k, 0, len(path), result.right == path[k].X) && exists(k, 0, len(path), result.top == path[k].Y) && exists(k, 0, len(path), result.bottom == path[k].Y))
+//@   ensures [empty] len(path) == 0 ==> result == Rect64{}
